@@ -113,6 +113,17 @@ def run(tier, seed, t0):
     bscn = scenarios.generate("backlog", 10 if tier == "quick" else 80, seed)
     # the transport stalls in the middle of a frame and the server closes (connection / channel) meanwhile
     bscn += scenarios.generate("midframe_close", 120 if tier == "quick" else 2000, seed)
+    # what the client writes on its own account must be as well-formed as what it forwards: the Connection.Close
+    # it answers an illegal server frame with carries a text rendered from that frame (long, non-ASCII names)
+    from checks import c07
+    k = 0
+    for name in ("queue.declare-utf8", "queue.declare-long", "channel.flow", "basic.publish"):
+        for ch in (1, 2):
+            for trailing in ([], [{"k": "hb", "ch": 0}]):
+                x = c07.scenario([{"k": "method", "ch": ch, "name": name, "tag": "c1"}] + trailing, k)
+                x["kind"] = "backlog-cliexc"
+                bscn.append(x)
+                k += 1
     bfiles, bsumm = vlib.run_sessions(PROP + "-backlog", bscn, tier, hang_ms=hang)
     bconsumed, bbad = vlib.validate_traces("ConnTrace", "ConnTrace.cfg", bfiles, timeout=1800, xmx="4g")
     v.absorb(bbad)
